@@ -63,6 +63,10 @@ def Node.vis : Node → List String
   | .base .. => []
   | .cont _ _ _ _ _ v _ => v
 
+def Node.isGrid : Node → Bool
+  | .cont .grid .. => true
+  | _ => false
+
 def Node.kids : Node → Kids
   | .base .. => .nil
   | .cont _ _ _ _ _ _ ks => ks
@@ -293,8 +297,12 @@ def collect (t : Nat) (st : String) : Path → (out : Node) → (pre : List Stri
     | some cand, some target =>
       match cand with
       | .base .. =>
-        let r := collect t st rest (updateAt (insertChild cand) pre out) pre template
-        (r.1, setItemFull st target cand ++ r.2)
+        -- fix e9f11ba: `elif isinstance(target, GridType) and name in target.keys(): pass` — a member named again
+        -- after its grid was collected whole stays where it is (no `del`, no `__setitem__`)
+        if target.isGrid && decide (name ∈ target.vis) then collect t st rest out pre template
+        else
+          let r := collect t st rest (updateAt (insertChild cand) pre out) pre template
+          (r.1, setItemFull st target cand ++ r.2)
       | .cont .. =>
         if name ∈ target.vis then collect t st rest out (pre ++ [name]) cand
         else if rest.isEmpty then
